@@ -497,10 +497,44 @@ func c05Corpus(g *G) {
 	}
 }
 
+// c05LoopCountSps: SPSs whose loop counts come from the bit stream and announce far more entries than the data holds
+// (pic_order_cnt_type 1: num_ref_frames_in_pic_order_cnt_cycle; the time spent must stay bounded by the message size)
+func c05LoopCountSps() [][]byte {
+	var out [][]byte
+	for _, n := range []uint64{255, 65535, 1 << 24, 1<<31 - 1, 1 << 31, 1<<32 - 2} {
+		for _, tail := range []int{0, 1, 9} {
+			w := &bitw{}
+			w.u(8, 0x67)
+			w.u(8, 66) // baseline: no chroma / scaling fields
+			w.u(8, 0)
+			w.u(8, 30)
+			w.ue(0) // seq_parameter_set_id
+			w.ue(0) // log2_max_frame_num_minus4
+			w.ue(1) // pic_order_cnt_type
+			w.u(1, 0)
+			w.se(0)
+			w.se(0)
+			w.ue(n) // num_ref_frames_in_pic_order_cnt_cycle
+			for i := 0; i < tail; i++ {
+				w.se(int64(i))
+			}
+			out = append(out, w.bytes())
+		}
+	}
+	return out
+}
+
 func genC05(g *G) {
 	r := g.rng
 	c05Corpus(g)
 	c05GroupCorpus(g)
+	for _, sps := range c05LoopCountSps() {
+		pps := []byte{0x68, 0xce, 0x3c, 0x80}
+		sh := append([]byte{0x17, 0, 0, 0, 0, 1, sps[1], sps[2], sps[3], 0xff, 0xe1, byte(len(sps) >> 8), byte(len(sps))}, sps...)
+		sh = append(append(sh, 1, byte(len(pps)>>8), byte(len(pps))), pps...)
+		g.L("boundary-sps-loop-count").run("c05.group 127 1 150 9:0:" + hx(sh))
+		g.L("boundary-sps-loop-count").run("c05.group 127 1 150 Jr,9:0:" + hx(sh) + ",9:40:2701000000000000026501")
+	}
 
 	// classification helpers on random short payloads
 	for i := 0; i < g.scale(1500, 60000); i++ {
